@@ -120,7 +120,7 @@ LOLLIPOP2 = mk_topo([[1, 2], [2, 3, 4], [3, 4], [4, 5]], [KU, U, K, U, K])
 PARALLEL3 = mk_topo([[1, 2], [2, 1], [1, 2]], [K, U])
 
 
-def random_tree(rng, nn=None, max_ports=4, max_st=3):
+def random_tree(rng, nn=None, max_ports=4, max_st=3, reuse_macs=False):
     nn = nn or rng.randint(2, 8)
     order = list(range(1, nn + 1))
     rng.shuffle(order)
@@ -133,6 +133,21 @@ def random_tree(rng, nn=None, max_ports=4, max_st=3):
         connected += [p for p in ports if p not in connected]
     pats = [[rng.random() < 0.6 for _ in range(rng.randint(1, max_st))] for _ in range(nn)]
     t = mk_topo(routers, pats, rmac=lambda k, p: 20 + 5 * k + p)
+    if reuse_macs:
+        # station addresses are local to a network: give every router port the smallest address still free on its LAN, so that
+        # it coincides with station addresses on other networks (a frame for 3:2 passes a router whose port on net 2 is station 2)
+        used = {}
+        for nd in t["nodes"]:
+            if nd["app"]:
+                used.setdefault(nd["ads"][0]["lan"], set()).add(nd["ads"][0]["mac"])
+        for nd in t["nodes"]:
+            if not nd["app"]:
+                for a in nd["ads"]:
+                    m = 1
+                    while m in used.setdefault(a["lan"], set()):
+                        m += 1
+                    a["mac"] = m
+                    used[a["lan"]].add(m)
     rng.shuffle(t["nodes"])             # creation order = order on the LANs
     return t
 
@@ -555,9 +570,10 @@ def main(tier, seed):
             break
         trng = random.Random(rng.randrange(1 << 30))
         nn = 2 + tno % 7
-        topo = random_tree(trng, nn)
+        topo = random_tree(trng, nn, reuse_macs=(tno % 3 == 2))
         sts = stations(topo)
-        meta = {"part": "T", "topology": tno, "nets": nn, "stations": len(sts), "routers": len(topo["nodes"]) - len(sts)}
+        meta = {"part": "T", "topology": tno, "nets": nn, "stations": len(sts), "routers": len(topo["nodes"]) - len(sts),
+                "macs_reused_across_networks": tno % 3 == 2}
         allc = [(s,) + c for s in sts for c in combos(topo, s, trng)]
         # (i) every combination from cold caches (fresh stacks), replies from every recipient
         cold = allc if thorough or len(allc) <= 60 else trng.sample(allc, 60)
